@@ -1230,4 +1230,12 @@ pub mod verif_hooks {
     pub fn hash_history_contains_hash_twice(hash_history: &List<Zobrist>, hash: &Zobrist) -> bool {
         super::hash_history_contains_hash_twice(hash_history, hash)
     }
+
+    pub fn initial_hash_of_move(game_state: &GameState) -> Zobrist {
+        game_state.unwrap_play_phase().initial_hash_of_move
+    }
+
+    pub fn state_hash(game_state: &GameState) -> Zobrist {
+        game_state.hash
+    }
 }
